@@ -74,6 +74,11 @@ func (ssp *simpleSpanProcessor) Shutdown(ctx context.Context) error {
 		// span would need to be exported. Meaning, OnEnd would be called and
 		// try acquiring the lock that is held here.
 		ssp.exporterMu.Lock()
+		if ssp.exporter == nil {
+			// Built around a nil exporter: there is nothing to shut down.
+			ssp.exporterMu.Unlock()
+			return
+		}
 		done, shutdown := stopFunc(ssp.exporter)
 		ssp.exporter = nil
 		ssp.exporterMu.Unlock()
